@@ -119,3 +119,18 @@ import Dashu.Props.GenBitOpsHeap
 #print axioms Dashu.Props.GenBitOpsHeap.gen_large_dword_short
 #print axioms Dashu.Props.GenBitOpsHeap.gen_heap_heap_arms
 #print axioms Dashu.Props.GenScans.gen_are_slice_low_bits_nonzero
+#print axioms Dashu.Props.GenShiftHeap.gen_shr_large_ref
+#print axioms Dashu.Props.GenShiftHeap.gen_shr_heap_forms
+#print axioms Dashu.Props.GenBitsHeap.gen_clear_bit_large
+#print axioms Dashu.Props.GenBitsHeap.gen_split_bits_large
+#print axioms Dashu.Props.GenScans.gen_bit_large
+#print axioms Dashu.Props.GenScans.gen_bit_len_large
+#print axioms Dashu.Props.GenScans.count_ones_eq
+#print axioms Dashu.Props.GenScans.popWord_le
+#print axioms Dashu.Props.GenScans.sum_checked_eq
+#print axioms Dashu.Props.GenScans.gen_count_ones_large
+#print axioms Dashu.Props.GenScans.gen_count_zeros_large_partial
+#print axioms Dashu.Props.GenScans.is_power_of_two_eq
+#print axioms Dashu.Props.GenScans.gen_is_power_of_two_large
+#print axioms Dashu.Props.GenScans.last_le_sum
+#print axioms Dashu.Props.GenScans.gen_count_zeros_large
